@@ -14,11 +14,11 @@ RULE = ('1-3 started ActiveObjects, each subscribed to a signal with queue_type 
         'subscribed signal is made and the fabric left to deliver (detsched random/PCT); the gate opens. In half of the runs a further '
         'thread posts fifo events to every object while the fabric delivers. The dispatch order after the gate must be: lifo subscriber - '
         'publications newest first, then the pending events, then the concurrent posts; fifo/default subscriber - pending events first, then '
-        'publications in publish order and concurrent posts in post order (the queue operations used are not prescribed). distinct_nontrivial = distinct (objects, kinds, pending, burst, subscribe-before-'
+        'publications in publish order and concurrent posts in post order (the queue operations used are not prescribed). Every eighth case delivers one publication to an object whose queue (capacity 3-6) is exactly full: lifo - handled first afterwards, fifo - handled last. distinct_nontrivial = distinct (objects, kinds, pending, burst, subscribe-before-'
         'start) tuples x schedule')
 CASES = {'quick': 1200, 'thorough': 40000}
 BUDGET = {'quick': 150, 'thorough': 300}
-REQUIRE = {'runs': 500, 'lifo_deliveries': 500, 'fifo_deliveries': 500, 'lifo_with_pending_events': 200, 'runs_with_concurrent_poster': 200, 'objects_subscribed_both_ways': 150}
+REQUIRE = {'runs': 500, 'lifo_deliveries': 500, 'fifo_deliveries': 500, 'lifo_with_pending_events': 200, 'runs_with_concurrent_poster': 200, 'objects_subscribed_both_ways': 150, 'deliveries_to_a_full_queue': 100}
 ASSUME = ['subscriptions of active objects (the statement); plain-deque subscribers keep the repository\'s pinned append behaviour']
 ANNOUNCE_CASES = True
 
@@ -40,7 +40,62 @@ def make_state(hist, gate, name):
   return H.spy_on(st)
 
 
+def full_queue_case(ctx, n):
+  """delivery to an object whose pending-event queue is exactly FULL (a small capacity, the object held in a handler): a lifo
+  delivery must still be the first event handled afterwards, a fifo delivery the last one (which pending event gives way is
+  not prescribed)"""
+  rng = ctx.rng('full', n)
+  cap = rng.choice([3, 4, 6])
+  kind = rng.choice(['lifo', 'lifo', 'fifo'])
+  pol = dict(policy='random', p_switch=rng.choice([0.02, 0.1, 0.3])) if rng.random() < 0.7 else dict(policy='pct', pct_depth=2, pct_len=800)
+  s = ds.Sched(seed=rng.randrange(1 << 30), max_steps=3000000, **pol)
+  aosim.install(s)
+  try:
+    gate = [False]
+    hist = aosim.History()
+    wit = {'full_queue': True, 'capacity': cap, 'kind': kind, 'policy': pol}
+    try:
+      saved = H.HsmWithQueues.QUEUE_SIZE
+      H.HsmWithQueues.QUEUE_SIZE = cap
+      try:
+        a = aosim.make_ao(hist, name='c09_full')
+      finally:
+        H.HsmWithQueues.QUEUE_SIZE = saved
+      a.start_at(make_state(hist, gate, 'c09_full_state'))
+      a.subscribe(Event(signal='C09_PUB'), queue_type=kind)
+      s.quiesce()
+      a.post_fifo(Event(signal='GATE'))
+      s.quiesce()
+      pend = [('EVT', u) for u in range(1, cap + 1)]
+      for _, u in pend:
+        a.post_fifo(Event(signal='EVT', payload=u))
+      AO.ActiveFabric().publish(Event(signal='C09_PUB', payload=99))
+      s.quiesce()
+      gate[0] = True
+      s.quiesce()
+    except ds.Verdict as v:
+      ctx.violation('C09/' + v.kind, 'full-queue scenario ended in %s: %r' % (v.kind, v.info), wit)
+      return
+    ctx.count('deliveries_to_a_full_queue')
+    ctx.distinct(('full', cap, kind, s.signature()[:20]))
+    got = list(hist.handled)
+    if ('C09_PUB', 99) not in got or len(got) != cap:
+      ctx.count('other_property_disagreements')        # what a full queue keeps is C16's business
+      return
+    pos = got.index(('C09_PUB', 99))
+    want = 0 if kind == 'lifo' else cap - 1
+    if pos != want:
+      ctx.violation('C09/%s-delivery-at-wrong-end' % kind, 'object subscribed %s, its queue (capacity %d) was full when the publication was delivered: it was handled at position %d of %d after the gate (%r), expected %s' % (
+        kind, cap, pos, cap, got, 'first' if kind == 'lifo' else 'last'), wit)
+  finally:
+    z = ds.uninstall()
+    if z:
+      ctx.count('zombie_threads', z)
+
+
 def run_case(ctx, n):
+  if n % 8 == 7:
+    return full_queue_case(ctx, n)
   rng = ctx.rng('case', n)
   nobj = rng.randint(1, 3)
   cfg = [{'kind': rng.choice(['lifo', 'lifo', 'fifo', None, 'fifo+lifo', 'lifo+fifo']), 'before_start': rng.random() < 0.5, 'pending': rng.randint(0, 5),
